@@ -4,6 +4,7 @@ import (
 	"errors"
 	"fmt"
 
+	"github.com/fxamacker/cbor/v2"
 	"github.com/taurusgroup/multi-party-sig/internal/types"
 	"github.com/taurusgroup/multi-party-sig/pkg/math/curve"
 	"github.com/taurusgroup/multi-party-sig/pkg/party"
@@ -122,4 +123,26 @@ func (sig *PreSignature) SignerIDs() party.IDSlice {
 		ids = append(ids, id)
 	}
 	return party.NewIDSlice(ids)
+}
+
+type preSignatureAlias PreSignature
+
+// UnmarshalCBOR decodes a stored PreSignature created with EmptyPreSignature. Encodings that leave
+// a field absent, or that make the decoder panic (null in a point or scalar field), are refused.
+func (sig *PreSignature) UnmarshalCBOR(data []byte) (err error) {
+	defer func() {
+		if p := recover(); p != nil {
+			err = fmt.Errorf("presignature: malformed encoding: %v", p)
+		}
+	}()
+	if sig.R == nil || sig.RBar == nil || sig.S == nil || sig.KShare == nil || sig.ChiShare == nil {
+		return errors.New("presignature must be initialized using EmptyPreSignature")
+	}
+	if err = cbor.Unmarshal(data, (*preSignatureAlias)(sig)); err != nil {
+		return err
+	}
+	if sig.R == nil || sig.RBar == nil || sig.S == nil || sig.KShare == nil || sig.ChiShare == nil {
+		return errors.New("presignature: missing field")
+	}
+	return nil
 }
